@@ -269,3 +269,26 @@ Theorem C15_ts_item : forall (uc : unicode) (cfg : ts_config),
     c15_contained C15ts LCode (mark (c15_file_pieces C15ts parts)) = forallb safe_ts (c15_item_docs it).
 Proof. exact Proofs.C15_TypeScript.C15_ts_item. Qed.
 Print Assumptions C15_ts_item.
+
+(* ---- Kotlin, one item, without the neutrality hypothesis.  [c15_item_strict l lg it] (Spec/C15Render.v,
+   decidable): every identifier of the item (names, field keys, variant names, the identifiers of its
+   types) is a NON-EMPTY string of characters that open no comment and no literal, are no control
+   characters and no backslash; generic parameters, the content key and verbatim type overrides are
+   plain.  (Non-empty and backslash-free because kotlin.rs prints the wire name of a sealed-class
+   variant between double quotes verbatim, and two adjacent quotes may open a raw string.)  With a plain
+   prefix and plain type_mappings targets, the text kt_write_item prints - helper data classes with their
+   @SerialName lines and toString() literal, data / value / enum / sealed classes, typealias - is
+   contained iff all doc strings of the item (print order) are safe_kt ---- *)
+Theorem C15_kt_item : forall (cfg : kt_config),
+  c15_plain C15kt (kt_prefix cfg) = true ->
+  c15_mappings_plain C15kt (kt_type_mappings cfg) = true ->
+  forall it text,
+  c15_item_strict C15kt Kotlin it = true ->
+  kt_write_item cfg it = Ok text ->
+  exists parts,
+    text = text_of (c15_file_pieces C15kt parts) /\
+    docs_of (c15_file_pieces C15kt parts) = c15_item_docs_helpers_first it /\
+    c15_contained C15kt LCode (mark (c15_file_pieces C15kt parts)) =
+    forallb safe_kt (c15_item_docs_helpers_first it).
+Proof. exact Proofs.C15_Kotlin.C15_kt_item. Qed.
+Print Assumptions C15_kt_item.
